@@ -119,6 +119,10 @@ func (c *CodeStore) ExchangeCode(code string) (permission.Token, error) {
 	}
 	// can only get code once.
 	delete(c.store, code)
+	// a code is not honoured after its time-to-live, even if the sweeper has not removed it yet
+	if token.Expired() {
+		return permission.Token{}, errors.New("expired code")
+	}
 	return token.Token, nil
 
 }
